@@ -20,6 +20,12 @@
 (*                    handler had no connection to the peer (peer in its   *)
 (*                    back-off window after earlier failures); a failed    *)
 (*                    dial is counted under other                          *)
+(*     notready       how many of its replica writes were LOCAL writes     *)
+(*                    (the receiver itself is one of the replicas) that    *)
+(*                    found the tenant's TSDB not ready                    *)
+(* A request may spread its series over several tenants (tenant split by   *)
+(* label); a replica counts as having stored a series only if it stored it *)
+(* under the series' tenant.                                               *)
 (*     stored        how many replicas had stored the series at the moment *)
 (*                    the client got its answer                            *)
 (* n = rf, or 1 for an already-replicated request.                         *)
@@ -84,16 +90,18 @@ FailureThreshold(rf, replicated) == ReplicasFor(rf, replicated) - SuccessThresho
 (* canReturnEarly: every series reached the success threshold or is blocked by conflicts *)
 CanReturnEarly(S, succ, conf, st, ft) == \A s \in S : succ[s] >= st \/ conf[s] >= ft
 
-(* replicationErrors.Cause for one series, from its accounted errors: c conflicts, g answers with     *)
-(* gRPC code Unavailable, r refusals by the handler's own peer group (errUnavailable: peer in back-off, *)
-(* no RPC made), o other errors (incl. a failed dial, whose cause is the dial error).                  *)
-(* Counted per expected error: conflict c, notReady g (codes.Unavailable matches isNotReady),           *)
+(* replicationErrors.Cause for one series, from its accounted errors: c conflicts (gRPC AlreadyExists, *)
+(* or a local write whose errors are all conflicts: out-of-order / duplicate sample, ...), g answers   *)
+(* with gRPC code Unavailable, r refusals by the handler's own peer group (errUnavailable: peer in     *)
+(* back-off, no RPC made), l local writes that found the tenant's TSDB not ready (tsdb.ErrNotReady:     *)
+(* matches isNotReady only), o other errors (incl. a failed dial, whose cause is the dial error).      *)
+(* Counted per expected error: conflict c, notReady g + l (codes.Unavailable matches isNotReady),       *)
 (* unavailable g + r; sorted by count, descending, stable (conflict, notReady, unavailable); only the   *)
 (* first entry is compared with the threshold.                                                          *)
-ReplCause(c, g, r, o, th) ==
-    LET n == g
+ReplCause(c, g, r, l, o, th) ==
+    LET n == g + l
         u == g + r
-        total == c + g + r + o IN
+        total == c + g + r + l + o IN
     IF total = 0 THEN "empty"
     ELSE IF c >= n /\ c >= u THEN (IF c >= th THEN "conflict" ELSE IF total >= th THEN "unavailable" ELSE "nil")
     ELSE IF n >= u THEN (IF n >= th THEN "notready" ELSE IF total >= th THEN "unavailable" ELSE "nil")
@@ -117,14 +125,15 @@ StatusOf(cause) == CASE cause \in {"unavailable", "notready"} -> 503
 Decide(S, fail, errs, ft, th) ==
     LET failing == { s \in S : fail[s] >= ft } IN
     IF failing = {} THEN 200
-    ELSE StatusOf(WriteCause({ ReplCause(errs[s].c, errs[s].u, errs[s].r, errs[s].o, th) : s \in failing }))
+    ELSE StatusOf(WriteCause({ ReplCause(errs[s].c, errs[s].u, errs[s].r, errs[s].l, errs[s].o, th) : s \in failing }))
 
 (* The same from the complete fault assignment of a run record (used for model conformance). *)
 PredictedStatus(run, rf, replicated) ==
     LET S == DOMAIN run.series
         ft == FailureThreshold(rf, replicated)
-        fail == [s \in S |-> run.series[s].conflict + run.series[s].unavailable + run.series[s].noconn + run.series[s].other]
+        fail == [s \in S |-> run.series[s].conflict + run.series[s].unavailable + run.series[s].noconn
+                              + run.series[s].notready + run.series[s].other]
         errs == [s \in S |-> [c |-> run.series[s].conflict, u |-> run.series[s].unavailable,
-                              r |-> run.series[s].noconn, o |-> run.series[s].other]]
+                              r |-> run.series[s].noconn, l |-> run.series[s].notready, o |-> run.series[s].other]]
     IN Decide(S, fail, errs, ft, ft)
 =============================================================================
